@@ -27,7 +27,10 @@ PROP = {
                       "flight and after, chunk sizes down to 4 and receive buffers down to 64; labels are sent through every channel "
                       "and the observations (who got which label, clean end / error / absent) are compared number by number with the "
                       "extracted model and re-checked in the kernel on a sample; an independent oracle states the property on every "
-                      "implementation trace (label matrix is a partial permutation, unmatched ends report an error, nothing pending).",
+                      "implementation trace (label matrix is a partial permutation, unmatched ends report an error, nothing pending; "
+                      "a sender half handed over with 0..8 items queued locally -- up to a completely full queue -- that the far end "
+                      "never built (deserialization failed for lack of ports, half ignored, connection lost in flight) leaves the "
+                      "receiver end with exactly the queued items followed by an error, never a clean end).",
         "level_note": "Trusted: Coq kernel (+vm_compute), extraction (ExtrOcamlBasic only) and mrun glue (cross-checked in-kernel on a "
                       "sample), translator, harness and its transport. TRUSTED HYPOTHESIS of C05_errors (to be discharged by C10 / C06): "
                       "on a live connection every request in flight is delivered and answered exactly once, on a lost connection every "
@@ -41,7 +44,8 @@ PROP = {
         "trivial_sig": r"^(remote:)?h1:n[01](:il)?$",
         "rule": "cases from one PRNG (VERIF_SEED): 1-3 hops, 0-8 channels of the six kinds, each sending its sender half, its receiver "
                 "half or both (in either order, in one or two consecutive values), 15% of the single halves with version skew (ignored "
-                "by the far end / request lost), 30% of the mpsc channels with an item queued before the hand-over, port limits at "
+                "by the far end / request lost), 30% of the mpsc channels (local queue of 8) with items queued before the hand-over (a third each: one item, 2-7 items, "
+                "8 = queue completely full), port limits at "
                 "origin and far end drawn around the number of halves of the first value (need-1, need, need+1, 0), optional retry "
                 "after a serialization error, connection loss in flight (first/last connection) or after delivery, receive buffers "
                 "64..1024 or default, chunk sizes 4..64 or default, random tree shape per value; every 16th case is the separate "
